@@ -26,11 +26,12 @@ def C05():
                       "executed on the real Matrix<Options> for 129 option sets (covering design over flavour x column type x "
                       "indexation x row access x containers x vine/rep/pairing), compared after the last operation with an "
                       "independent dense reduction over Z_p and with the R/U and chain-basis identities"),
-        "level_text": ("every history with at most 7 (thorough: 8-9) insertions and 2 (thorough: up to 4) remove_last, also on the "
-                       "empty matrix, over the 15 simplices of a tetrahedron, a square with one 4-gon, a 2x1 cubical strip, a "
+        "level_text": ("every history with at most 7 (thorough: 8-9) insertions and 2 (thorough: up to 4) remove_last (small plan "
+                       "items also call it on the empty matrix), over the 15 simplices of a tetrahedron, a square with one 4-gon, a 2x1 cubical strip, a "
                        "triangle and a CW complex with degree-2/-3/4 attaching maps, reduced to distinct API call sequences; fields "
-                       "Z_2 (native) and Z_p operators with p = 2, 3 (thorough: 5); default, reused non-contiguous, fresh "
-                       "non-contiguous and explicit contiguous identifiers; two constructors; 129 option sets in which every pair "
+                       "Z_2 (native) and Z_p operators with p = 2, 3, 5; default identifiers, explicit identifiers 2*position (reused), "
+                       "3*count+2 (fresh), position (thorough) and a scheme in which a removed identifier comes back at another "
+                       "position; two constructors; 129 option sets in which every pair "
                        "of option values occurs within each flavour and every option value occurs with every (flavour, column "
                        "type). A bounded-depth statement: longer histories and larger complexes are not covered"),
         "level_note": ("trusted: ref::persistence and ref::rank_mod_p (dense Z_p elimination), the 40-line reference model of a "
